@@ -106,7 +106,12 @@ def run(chk, repo, tier):
     for tok, vars_ in const_dispatch(fi.node, dm).items():
         if not (isinstance(tok, str) and tok.startswith('OP_')):
             continue
-        op, tpv = vars_.get('operator'), vars_.get('operator_type')
+        # the two variables are recognised by what they hold (a comparison operator / the type str or float), not by their
+        # names: an inlined helper carries its locals under other names
+        op = next((v for v in vars_.values() if isinstance(v, ast.Constant) and v.value in ('==', '!=', '<', '>', '<=', '>=')),
+                  vars_.get('operator'))
+        tpv = next((v for v in vars_.values() if isinstance(v, ast.Name) and v.id in ('str', 'float', 'int')),
+                   vars_.get('operator_type'))
         dispatch[tok] = (op.value if isinstance(op, ast.Constant) else None, tpv.id if isinstance(tpv, ast.Name) else None)
     for t in sorted(op_tokens):
         chk.instance(R1, f'token {t}: dispatch {dispatch.get(t)}')
@@ -146,7 +151,8 @@ def run(chk, repo, tier):
                 if isinstance(s_, ast.Assign):
                     cond_vars |= {x.id for x in ast.walk(s_.targets[0]) if isinstance(x, ast.Name)
                                   and isinstance(x.ctx, ast.Store)}
-    cond_vars &= {'operator', 'operator_type', 'column', 'expr'}
+    # (an inlined helper carries its locals as <name>__<helper>)
+    cond_vars = {v for v in cond_vars if v.split('__')[0] in ('operator', 'operator_type', 'column', 'expr')}
     for v in sorted(cond_vars):
         direct = [cfg.ids(s_)[0] for s_ in outer[0].body if isinstance(s_, ast.Assign)
                   and isinstance(s_.targets[0], ast.Name) and s_.targets[0].id == v and cfg.ids(s_)]
@@ -164,8 +170,10 @@ def run(chk, repo, tier):
                                   'evaluated with .GT. and numeric comparison')
     dflt = {}
     for s_ in outer[0].body:
-        if isinstance(s_, ast.Assign) and isinstance(s_.targets[0], ast.Name) and s_.targets[0].id in ('operator', 'operator_type'):
-            dflt[s_.targets[0].id] = s_.value.value if isinstance(s_.value, ast.Constant) else unparse(s_.value)
+        if isinstance(s_, ast.Assign) and isinstance(s_.targets[0], ast.Name) \
+                and s_.targets[0].id.split('__')[0] in ('operator', 'operator_type'):
+            dflt.setdefault(s_.targets[0].id.split('__')[0],
+                            s_.value.value if isinstance(s_.value, ast.Constant) else unparse(s_.value))
     chk.instance(R1, f'default without operator: {dflt}')
     if [dflt.get('operator'), dflt.get('operator_type')] != spec['default_without_operator']:
         chk.violation(R1, rel, fi.qualname, f'default {dflt}', 'a filter without operator must be text equality',
